@@ -375,6 +375,30 @@ func FamilyCont(tier string) []*Scenario {
 		routes[name](&ps)
 		out = append(out, &Scenario{Family: "F-cont", Name: "cont-ok-route-" + name, Plans: []PlanSpec{ps}, Time: true, MaxTicks: 5})
 	}
+	// Delay left unset on the continuous checks (the engine then uses a 1 ns ticker): the initial run is still a gate
+	for _, lv := range []string{"block", "plan"} {
+		for _, fails := range []bool{true, false} {
+			for _, withPre := range []bool{false, true} {
+				ps := PlanSpec{Blocks: []BlockSpec{{Seqs: okSeqs(1, 2), Conc: 1}}}
+				c := ChkD(-1, A())
+				if fails {
+					c = ChkD(-1, A(Perm))
+				}
+				if lv == "block" {
+					ps.Blocks[0].Cont = c
+					if withPre {
+						ps.Blocks[0].Pre = Chk(A())
+					}
+				} else {
+					ps.Cont = c
+					if withPre {
+						ps.Pre = Chk(A())
+					}
+				}
+				out = append(out, &Scenario{Family: "F-cont", Name: fmt.Sprintf("cont-nodelay-%s-fail%v-pre%v", lv, fails, withPre), Plans: []PlanSpec{ps}, Time: true, MaxTicks: 3})
+			}
+		}
+	}
 	// minimal versions: a passing continuous check (block or plan level) whose later run is in flight at the moment
 	// the scope fails by another route; small enough for every order; the slow twin lets time pass by default while
 	// the sequence action executes, so a run of the loop is in flight without any deviation
